@@ -726,7 +726,8 @@ func provenLowerLen(at ssa.Instruction, x ssa.Value) (int64, bool) {
 // sufficient make() or ReadN's proven size.  Arrays have their bounds checked by the compiler.
 func c19IndexGuards(c *Ctx) {
 	inputFiles := map[string]bool{"format.go": true, "reader.go": true, "protocol.go": true, "protocolserver.go": true, "index.go": true, "archive.go": true, "types.go": true}
-	n := 0
+	n, nVar := 0, 0
+	var tnt *taintResult
 	for _, f := range c.libFuncs() {
 		file := c.Fset.Position(f.Pos()).Filename
 		if !inputFiles[file[strings.LastIndex(file, "/")+1:]] {
@@ -750,7 +751,26 @@ func c19IndexGuards(c *Ctx) {
 			}
 			k, isK := idx.(*ssa.Const)
 			if !isK || k.Value == nil {
-				return // a variable index: loops over len(x) etc. are not this rule's business
+				// a variable index is this rule's business when its value comes from the input (a
+				// count or offset that was read, not a loop counter): then index < len(x) has to
+				// be established by a dominating comparison of the two
+				if tnt == nil {
+					tnt = computeTaint(c, c.libFuncs())
+				}
+				if !tnt.val[idx] {
+					return
+				}
+				nVar++
+				d := linearB(idx, 0).add(linform{atoms: map[string]int{"len(" + batom(x, 0) + ")": 1}, ok: true}, -1)
+				ub, found := provenUpperForm(ins, d)
+				for a := range d.atoms {
+					if strings.HasPrefix(a, "?") {
+						found = false // a value the forms cannot name is not compared with anything
+					}
+				}
+				c.verdict(found && ub <= -1, fmt.Sprintf("%s:index-from-input", fnKey(f)), ins.Pos(), "an index computed from an input value is used only where it was found smaller than the length of the slice",
+					"a slice is indexed by a value computed from the input (a count or size field) and no dominating check establishes index < len: the slice holds what was actually read, the field says what was announced - malformed input panics with 'index out of range'")
+				return
 			}
 			need := constInt64(k) + 1
 			n++
@@ -815,6 +835,7 @@ func c19IndexGuards(c *Ctx) {
 				fmt.Sprintf("element %d of a slice or string of input-dependent length is read but no dominating check establishes len > %d: malformed input panics with 'index out of range'", constInt64(k), constInt64(k)))
 		})
 	}
+	c.info("index-guards:from-input", token.NoPos, "%d slice access(es) indexed by a value computed from the input", nVar)
 	if n == 0 {
 		c.info("index-guards", token.NoPos, "no constant-index access to a slice or string in the decoders")
 		c.ok("index-guards", token.NoPos, "no constant-index access to a slice or string of input-dependent length in the decoders")
